@@ -150,52 +150,60 @@ def run(ctx):
     builddir = tempfile.mkdtemp(prefix="verif_cbuild_")
     os.environ["VERIF_CBUILD"] = builddir
     try:
-        lane_events = {}
-        ev_p = ctx.replay([dict(v) for v in fv], lane="P")
-        lane_events["P"] = ev_p
+        per_lane = {}
+
+        def settle(lane, evs):
+            """distinct cases, samples, trace validation and verdicts of one lane; its events are dropped afterwards"""
+            for e in evs:
+                ctx.distinct.add(hash((lane, e["fn"], repr(e.get("frame") or e.get("code") or e.get("text") or e.get("bits") or e.get("x") or e.get("addr") or e.get("num")))))
+            per_lane[lane] = len(evs)
+            if evs and lane in ("T", "B"):
+                ctx.samples += [evs[0], evs[-1]] if lane == "T" else [evs[0]]
+            # ids are unique across lanes already (ctx assigns them)
+            ctx.judge(ctx.validate(evs))
+
+        def key(e):
+            return hash(repr(sorted(strip(e).items(), key=lambda kv: kv[0])))
+
+        settle("P", ctx.replay([dict(v) for v in fv], lane="P"))
         try:
             ev_t = ctx.replay([dict(v) for v in fv], lane="T")
-            lane_events["T"] = ev_t
         except tlc.MachineryError as e:
             raise tlc.MachineryError("lane T (transliterated .pyx) unavailable: %s" % str(e)[-600:])
         b_ok, stale = set(), {}
+        ev_b = None
         try:
             b_ok, stale = call_closure()
-            vb = [dict(v) for v in fv if fn_of(v) in b_ok]
-            lane_events["B"] = ctx.replay(vb, lane="B")
+            ev_b = ctx.replay([dict(v) for v in fv if fn_of(v) in b_ok], lane="B")
         except (lanes.LaneUnavailable, tlc.MachineryError) as e:
             ctx.notes.append("lane B unavailable: %s" % str(e)[-300:])
         ctx.extra["lane_B_fresh_functions"] = sorted(b_ok & set(SHARED))
         ctx.extra["lane_B_stale_functions"] = {k: v for k, v in stale.items()}
         # fidelity of lane T: wherever B is fresh, T and B must return the same thing on every vector
-        if "B" in lane_events:
+        if ev_b is not None:
             tmap = {}
-            for e in lane_events["T"]:
-                tmap.setdefault(repr(sorted(strip(e).items(), key=lambda kv: kv[0])), e["res"])
+            for e in ev_t:
+                if fn_of(e) in b_ok:
+                    tmap.setdefault(key(e), e["res"])
             bad = 0
-            for e in lane_events["B"]:
-                k = repr(sorted(strip(e).items(), key=lambda kv: kv[0]))
-                if tmap.get(k) != e["res"]:
+            for e in ev_b:
+                if tmap.get(key(e)) != e["res"]:
                     bad += 1
                     if bad <= 3:
-                        ctx.notes.append("T/B disagreement on %s: T=%r B=%r" % (strip(e), tmap.get(k), e["res"]))
-            ctx.extra["lane_T_vs_B_vectors_compared"] = len(lane_events["B"])
+                        ctx.notes.append("T/B disagreement on %s: T=%r B=%r" % (strip(e), tmap.get(key(e)), e["res"]))
+            ctx.extra["lane_T_vs_B_vectors_compared"] = len(ev_b)
             ctx.extra["lane_T_vs_B_disagreements"] = bad
+            del tmap
             if bad:
                 raise tlc.MachineryError("lane T (interpreted .pyx) disagrees with the compiled, fresh C on %d vectors: %s" % (bad, ctx.notes[-1]))
+        settle("T", ev_t)
+        del ev_t
+        if ev_b is not None:
+            settle("B", ev_b)
+            del ev_b
         # library level under the .pyx lane
-        lv = library_vectors(ctx)
-        lane_events["T-lib"] = ctx.replay([dict(v) for v in lv], lane="T")
-        allev = []
-        for lane, evs in lane_events.items():
-            for e in evs:
-                ctx.distinct.add((lane, e["fn"], repr(e.get("frame") or e.get("code") or e.get("text") or e.get("bits") or e.get("x") or e.get("addr") or e.get("num"))))
-                allev.append(e)
-        ctx.samples += [lane_events["T"][0], lane_events["T"][-1]] + ([lane_events["B"][0]] if lane_events.get("B") else [])
-        # events of the monotone pseudo-kind are not replayed here; ids are unique across lanes already (ctx assigns them)
-        rej = ctx.validate(allev)
-        ctx.judge(rej)
-        ctx.extra["events_per_lane"] = {k: len(v) for k, v in lane_events.items()}
+        settle("T-lib", ctx.replay([dict(v) for v in library_vectors(ctx)], lane="T"))
+        ctx.extra["events_per_lane"] = per_lane
     finally:
         shutil.rmtree(builddir, ignore_errors=True)
         os.environ.pop("VERIF_CBUILD", None)
